@@ -621,7 +621,46 @@ def selftest():
         print('C20: public names not in the call table:', miss)
 
 
+EDGE_TOKENS = ['ue', 'se', 'uie', 'sie', 'uint:8', 'uint:3', 'int:5', 'hex', 'hex:4', 'bool', 'pad:3', 'pad:9', 'bits', 'bits:7', 'bytes:1', 'bytes', 'float:16', 'bin', 'bin:2', 'oct:3',
+               'e4m3mxfp', 'bfloat', 'uintle:16', '2*ue', '2*bool', '3*(uint:2)']
+
+
+@st.composite
+def stream_edge_case(draw, tier):
+    """streams whose remaining bits are just short of / exactly / just beyond what the tokens need (truncated exp-Golomb codes in particular), read with
+    read / peek / readlist / peeklist / unpack and moved around"""
+    shape = draw(st.integers(0, 4))
+    if shape == 0:
+        z = draw(st.integers(0, 5))
+        content = '0' * z + '1' + draw(st.text('01', max_size=z + 1))
+        content = content[:draw(st.integers(max(len(content) - 2, 0), len(content)))]
+    elif shape == 1:
+        content = ''.join(('0' + b) for b in draw(st.text('01', max_size=4))) + draw(st.sampled_from(['', '1', '10', '11', '0']))
+    elif shape == 2:
+        content = draw(bits_st(max_len=20, min_len=0))
+    else:
+        content = draw(bits_st(max_len=10)) + '0' * draw(st.integers(0, 4)) + draw(st.sampled_from(['', '1', '10', '100', '0010', '00010']))
+    pool = [['bs', draw(st.sampled_from(STREAMS)), content, draw(st.integers(0, len(content)))], ['bs', draw(st.sampled_from(STREAMS)), draw(bits_st(max_len=12, min_len=1)), 0]]
+    steps = []
+    for _ in range(draw(st.integers(1, 6))):
+        name = draw(st.sampled_from(['read', 'peek', 'readlist', 'peeklist', 'readlist', 'set_pos', 'bytealign', 'readto']))
+        if name in ('read', 'peek'):
+            a = [draw(st.one_of(st.just(['str', draw(st.sampled_from(EDGE_TOKENS[:23]))]), arg('fmt1')))]
+        elif name in ('readlist', 'peeklist'):
+            toks = draw(st.lists(st.sampled_from(EDGE_TOKENS), min_size=1, max_size=3))
+            a = [['str', ', '.join(toks)] if draw(st.booleans()) else ['list', [['str', t] for t in toks]]]
+        elif name == 'set_pos':
+            a = [['int', draw(st.integers(-2, len(content) + 2))]]
+        elif name == 'bytealign':
+            a = []
+        else:
+            a = [draw(arg('bits')), draw(arg('optbool'))]
+        steps.append(['stream', name, draw(st.integers(0, 1)) * 0, a])
+    return {'pool': pool, 'steps': steps, 'lsb0': False, 'ba': draw(st.sampled_from([False, False, True]))}
+
+
 SUBCHECKS = [
+    Sub('C20.stream_edge', run, strategy=stream_edge_case, examples={'quick': 6000, 'thorough': 80000}),
     Sub('C20.construct_dtype_pack', run, strategy=case_st(['global'], 6), examples={'quick': 8000, 'thorough': 120000}),
     Sub('C20.sequence_search_print', run, strategy=case_st(['bits'], 8), examples={'quick': 10000, 'thorough': 150000}),
     Sub('C20.mutators', run, strategy=case_st(['mut', 'mut', 'bits'], 8), examples={'quick': 10000, 'thorough': 150000}),
